@@ -115,8 +115,8 @@ def adjRow (r p : Mol) (common : List Nat) (n : Nat) : List (Nat Ã— Option Nat Ã
   ++ (pn.filter fun mb => !(rn.any (Â·.1 == mb.1))).map (fun mb => (mb.1, none, some mb.2.order))
 
 /-- `for n, m, bond in bonds: hb[n][m] = hb[m][n] = bond` on `hb = {k: {} for k in keys}`: the insertion-ordered
-    result when each unordered pair occurs once in `bonds` (the `m not in ha` tests of the loops; membership is proved in
-    `Proofs/C15Compose.has_all`, multiplicity is validated by the exact-dict-order stream `composeWith`). -/
+    result when each unordered pair occurs once in `bonds` (the `m not in ha` tests of the loops): proved as
+    `Props.C15.compose_is_dict`, and compared with the real dict order by the stream `composeWith`. -/
 def adjOf (keys : List Nat) (bonds : List (Nat Ã— Nat Ã— DynBond)) : List (Nat Ã— List (Nat Ã— DynBond)) :=
   keys.map fun k => (k, bonds.filterMap fun t =>
     if t.1 == k then some (t.2.1, t.2.2) else if t.2.1 == k then some (t.1, t.2.2) else none)
